@@ -71,6 +71,65 @@ def one(data, start, length, bs, short=0):
     return None
 
 
+class FileHandle(SFTPHandle):
+    """the stock SFTPHandle.read over a real file object (what a server built on the library's handle class serves)"""
+    def __init__(self, f, flags, size):
+        SFTPHandle.__init__(self, flags)
+        self.readfile = f
+        self.writefile = f
+        self._size = size
+
+    def stat(self):
+        a = SFTPAttributes()
+        a.st_size = self._size
+        return a
+
+
+def real_handles():
+    """check-file as the FIRST positioned request on handles opened in every mode (a file opened for appending stands at
+    its end), and again after reads elsewhere"""
+    import os
+    import tempfile
+    bad = []
+    data = bytes((i * 11 + 1) % 253 for i in range(5000))
+    d = tempfile.mkdtemp(prefix="c32_")
+    try:
+        for mode, flags in (("rb", os.O_RDONLY), ("r+b", os.O_RDWR), ("a+b", os.O_RDWR | os.O_APPEND | os.O_CREAT)):
+            for first in (None, 1234):
+                path = os.path.join(d, "f.bin")
+                with open(path, "wb") as f:
+                    f.write(data)
+                fo = open(path, mode)
+                h = FileHandle(fo, flags, len(data))
+                if first is not None:
+                    h.read(first, 10)
+                srv = object.__new__(SFTPServer)
+                srv.file_table = {b"h": h}
+                sent = []
+                srv._send_packet = lambda t, m: sent.append((t, m.asbytes() if hasattr(m, "asbytes") else m))
+                srv._send_status = lambda n, code, desc=None: sent.append((CMD_STATUS, code))
+                srv.logger = None
+                m = Message()
+                m.add_string(b"h"); m.add_string("sha1"); m.add_int64(0); m.add_int64(0); m.add_int(512)
+                srv._check_file(7, Message(m.asbytes()))
+                fo.close()
+                want = expected(data, 0, 0, 512)
+                if len(sent) != 1 or sent[0][0] != CMD_EXTENDED_REPLY:
+                    bad.append({"mode": mode, "why": "no hash reply: %r" % (sent[:1],)})
+                    continue
+                r = Message(sent[0][1])
+                r.get_int(); r.get_text(); r.get_text()
+                got = r.get_remainder()
+                if got != want:
+                    blk = next((i for i in range(0, min(len(got), len(want)), 20) if got[i:i + 20] != want[i:i + 20]), None)
+                    bad.append({"mode": mode, "read_elsewhere_first": first, "why": "hashes of a file opened %r differ: %d bytes "
+                                "returned, %d expected, first differing block %r" % (mode, len(got), len(want), None if blk is None else blk // 20)})
+    finally:
+        import shutil
+        shutil.rmtree(d, ignore_errors=True)
+    return bad
+
+
 def replay_check_file(inp):
     data = bytes((i * 7 + 3) % 251 for i in range(200000))
     cases = [(0, 0, 512, 0), (0, 1024, 256, 0), (100, 70000, 70000, 0), (0, 140000, 70000, 0), (5, 1000, 300, 100),
@@ -83,4 +142,5 @@ def replay_check_file(inp):
         why = one(data, start, length, bs, short)
         if why:
             bad.append({"start": start, "length": length, "block_size": bs, "short_reads": short, "why": why})
+    bad.extend(real_handles())
     return {"violates": bool(bad), "detail": bad[:4]}
